@@ -678,6 +678,21 @@ class _Count:
         self.forced: Dict[str, int] = {}  # case split: header byte name -> value
         self.vals: Dict[str, Poly] = {}  # local name -> byte length of the bytes value it holds
         self.seq_len: Dict[str, int] = {a_.targets[0].id: len(a_.value.elts) for a_ in ast.walk(fn) if isinstance(a_, ast.Assign) and len(a_.targets) == 1 and isinstance(a_.targets[0], ast.Name) and isinstance(a_.value, (ast.Tuple, ast.List)) and all(isinstance(e_, ast.Constant) for e_ in a_.value.elts)}
+        # fixed-size buffers: bound once to a sequence of known length (`[0] * 160`) and never grown, shrunk or re-bound
+        _binds: Dict[str, List[ast.AST]] = {}
+        for a_ in ast.walk(fn):
+            if isinstance(a_, ast.Assign) and len(a_.targets) == 1 and isinstance(a_.targets[0], ast.Name):
+                _binds.setdefault(a_.targets[0].id, []).append(a_.value)
+            elif isinstance(a_, (ast.AugAssign, ast.For)) and isinstance(getattr(a_, "target", None), ast.Name):
+                _binds.setdefault(a_.target.id, []).extend([None, None])
+        _resized = {c_.func.value.id for c_ in ast.walk(fn) if isinstance(c_, ast.Call) and isinstance(c_.func, ast.Attribute) and c_.func.attr in ("append", "extend", "insert", "pop", "remove", "clear") and isinstance(c_.func.value, ast.Name)}
+        _resized |= {t_.value.id for d_ in ast.walk(fn) if isinstance(d_, ast.Delete) for t_ in d_.targets if isinstance(t_, ast.Subscript) and isinstance(t_.value, ast.Name)}
+        _resized |= {t_.value.id for a_ in ast.walk(fn) if isinstance(a_, ast.Assign) for t_ in a_.targets if isinstance(t_, ast.Subscript) and isinstance(t_.slice, ast.Slice) and isinstance(t_.value, ast.Name)}
+        for nm_, vs_ in _binds.items():
+            if len(vs_) == 1 and vs_[0] is not None and nm_ not in _resized and nm_ not in self.seq_len and isinstance(vs_[0], ast.BinOp):
+                n_ = _seq_len(vs_[0])
+                if n_ is not None:
+                    self.seq_len[nm_] = n_
 
     def bytes_of(self, e: ast.AST) -> Optional[Poly]:
         """Length in bytes of the value written."""
@@ -1089,22 +1104,52 @@ def d4(ctx: Ctx):
                     facts={"nominal_value": nominal[:3]},
                     props=["C18", "C16", "C19"],  # also C19: a well-formed (or one-bit damaged) header then yields a short payload and success
                 )
-            ctx.ob(key, False, msg, file=rel, line=call.lineno, facts=facts, witness=("an option value violating: " + ", ".join(unmet)) if unmet else "", props=["C18"] if unmet else (["C19"] if fb or not _only_options(fn, wr_n, an_n) else ["C18", "C19"]))
+            ctx.ob(key, False, msg, file=rel, line=call.lineno, facts=facts, witness=("an option value violating: " + ", ".join(unmet)) if unmet else "", props=["C18"] if unmet else (["C19"] if fb or not _only_options(fn, wr_n, an_n) else ["C18", "C19", "C16"]))
         if all_ok:
             ctx.ob(dec, True, file=rel, line=call.lineno, facts=last_facts)
 
 
 def _only_options(fn: ast.FunctionDef, *polys) -> bool:
-    """Both sample counts are functions of the decoder's parameters (the option values) alone - then a disagreement
-    shows for well-formed files too; a count that depends on the file's own size or bytes is about damaged input."""
+    """The two sample counts disagree for some *well-formed* input: both are functions of the decoder's parameters (the
+    option values) and of single header flag bits (`getbit(x, k)`, both values legal) alone, and they differ for at
+    least one value of the flags.  A count that depends on the file's own size or on a count byte is about damaged
+    input (C19 only)."""
+    import itertools
+
     params = {a.arg for a in fn.args.args + fn.args.kwonlyargs}
+    flags: List[str] = []
     for p_ in polys:
         for k in p_.terms:
             for a in k:
+                if re.fullmatch(r"getbit\(\w+, *\d+\)", a):
+                    if a not in flags:
+                        flags.append(a)
+                    continue
                 ids = set(re.findall(r"[A-Za-z_][A-Za-z_0-9.]*", a))
                 if not ids <= params | {"min", "max", "floordiv", "int", "abs", "mod"}:
                     return False
-    return True
+    if not flags:
+        return True
+
+    def subst(p_: Poly, env: Dict[str, int]) -> Poly:
+        out = Poly()
+        for k, co in p_.terms.items():
+            c2 = co
+            rest = []
+            for a in k:
+                if a in env:
+                    c2 *= env[a]
+                else:
+                    rest.append(a)
+            if c2:
+                out = out + Poly({tuple(rest): c2})
+        return out
+
+    for vals in itertools.product((0, 1), repeat=len(flags)):
+        env = dict(zip(flags, vals))
+        if not (subst(polys[0], env) == subst(polys[1], env)):
+            return True
+    return False
 
 
 def _const_test(t: ast.AST, env: Dict[str, Poly]) -> Optional[bool]:
@@ -1562,7 +1607,8 @@ def d7(ctx: Ctx):
         fn = D.fn(dec, "convert")
         gates = 0
         for n in ast.walk(fn):
-            if isinstance(n, ast.If) and isinstance(n.test, ast.Compare):
+            # (the test may be named first: `bad = ord(head[0]) != 0; if bad:`)
+            if isinstance(n, ast.If) and isinstance(resolve_alias(fn, n.test), ast.Compare):
                 refuses = any(isinstance(x, ast.Raise) or (isinstance(x, ast.Call) and call_name(x) == "exit") or (isinstance(x, ast.Return) and isinstance(x.value, ast.Constant) and x.value.value is False) for b in n.body for x in ast.walk(b))
                 if refuses:
                     gates += 1
@@ -1723,9 +1769,27 @@ def d12(ctx: Ctx):
         want_type_col = tuple(VEF_TYPES[k][4] for k in ks)
         tvar = next((v for v, c in cols.items() if c == want_type_col), None)
         colours = {VEF_TYPES[k][4]: VEF_TYPES[k][2] for k in ks}
-        if tvar is not None and any(isinstance(n, ast.If) and tvar in names_loaded(n.test) for n in ast.walk(st)):
+        # the unpacking may live in a module-level helper that is handed the screen type (`pixel_slots(byte, veftype)`): there
+        # a branch `return (a, b, ...)` yields one pixel per element
+        scopes: List[Tuple[ast.AST, str]] = [(st, tvar)] if tvar is not None else []
+        if tvar is not None:
+            for c_ in ast.walk(st):
+                if isinstance(c_, ast.Call) and isinstance(c_.func, ast.Name) and c_.func.id in D.mods["veftopng"].functions and c_.func.id != st.name:
+                    hf = D.mods["veftopng"].functions[c_.func.id]
+                    for i_, a_ in enumerate(c_.args):
+                        if isinstance(a_, ast.Name) and a_.id == tvar and i_ < len(hf.args.args):
+                            scopes.append((hf, hf.args.args[i_].arg))
+        if tvar is not None and any(isinstance(n, ast.If) and tv_ in names_loaded(n.test) and any(isinstance(c, (ast.Call, ast.AugAssign, ast.Return)) for b in n.body for c in ast.walk(b)) for sc_, tv_ in scopes for n in ast.walk(sc_) if not (sc_ is st and False)):
             covered: Dict[int, int] = {}
-            for n in ast.walk(st):
+            for n, tvar_ in [(n_, tv_) for sc_, tv_ in scopes for n_ in ast.walk(sc_)]:
+                if isinstance(n, ast.If) and tvar_ in names_loaded(n.test) and any(isinstance(c, ast.Return) and isinstance(c.value, (ast.Tuple, ast.List)) for b in n.body for c in ast.walk(b)):
+                    tks = [c.comparators[0].value for c in ast.walk(n.test) if isinstance(c, ast.Compare) and isinstance(c.left, ast.Name) and c.left.id == tvar_ and isinstance(c.ops[0], ast.Eq) and isinstance(c.comparators[0], ast.Constant)]
+                    tks += [x.value for c in ast.walk(n.test) if isinstance(c, ast.Compare) and isinstance(c.left, ast.Name) and c.left.id == tvar_ and isinstance(c.ops[0], ast.In) and isinstance(c.comparators[0], (ast.Tuple, ast.List, ast.Set)) for x in c.comparators[0].elts if isinstance(x, ast.Constant)]
+                    rets_ = [c for b in n.body for c in ast.walk(b) if isinstance(c, ast.Return) and isinstance(c.value, (ast.Tuple, ast.List))]
+                    for tk in tks:
+                        covered[tk] = len(rets_[0].value.elts)
+                    continue
+                tvar = tvar_
                 if isinstance(n, ast.If) and tvar in names_loaded(n.test) and any((isinstance(c, ast.Call) and call_name(c) in ("append", "extend")) or (isinstance(c, ast.AugAssign) and isinstance(c.op, ast.Add)) for b in n.body for c in ast.walk(b)):
                     tks = [c.comparators[0].value for c in ast.walk(n.test) if isinstance(c, ast.Compare) and isinstance(c.left, ast.Name) and c.left.id == tvar and isinstance(c.ops[0], ast.Eq) and isinstance(c.comparators[0], ast.Constant)]
                     tks += [x.value for c in ast.walk(n.test) if isinstance(c, ast.Compare) and isinstance(c.left, ast.Name) and c.left.id == tvar and isinstance(c.ops[0], ast.In) and isinstance(c.comparators[0], (ast.Tuple, ast.List, ast.Set)) for x in c.comparators[0].elts if isinstance(x, ast.Constant)]
@@ -1783,6 +1847,63 @@ def d12(ctx: Ctx):
                 ctx.ob(f"veftopng.resize:type{k}", okz, "" if okz else f"a type-{k} picture ({w_}x{h_}) is resized to {size} after it was written: only the 640-wide modes are stretched (to 640x{2 * h_}, the aspect correction); every pixel of this one lands elsewhere and the file no longer has the announced size", file=rel, line=rz[0].lineno, props=["C18", "C16"])
         elif rz:
             ctx.undecided("veftopng.resize", "more than one resize step / geometry names not recognised", file=rel, line=rz[0].lineno, props=["C18", "C16"])
+        # the stretch doubles rows of the *palette* image: Pillow resamples mode-P images with NEAREST, any other mode (after
+        # `.convert(..)`) or an explicit filter blends neighbouring rows into colours no palette entry denotes
+        for r_ in rz:
+            recv = r_.func.value
+            seen_ = 0
+            while isinstance(recv, ast.Name) and seen_ < 4:
+                binds_ = [a_.value for a_ in ast.walk(st) if isinstance(a_, ast.Assign) and len(a_.targets) == 1 and isinstance(a_.targets[0], ast.Name) and a_.targets[0].id == recv.id and a_.lineno < r_.lineno and not any(x is r_ for x in ast.walk(a_))]
+                if not binds_:
+                    break
+                recv = binds_[-1]
+                seen_ += 1
+            conv = [c for c in ast.walk(recv) if isinstance(c, ast.Call) and isinstance(c.func, ast.Attribute) and c.func.attr in ("convert", "quantize", "filter", "point")]
+            rs = (r_.args[1] if len(r_.args) > 1 else None) or next((k_.value for k_ in r_.keywords if k_.arg == "resample"), None)
+            rs_ok = rs is None or (isinstance(rs, ast.Constant) and rs.value == 0) or unparse(rs).endswith("NEAREST")
+            okm = not conv and rs_ok
+            ctx.ob(
+                "veftopng.resize:nearest",
+                okm,
+                "" if okm else (f"the picture is stretched after `{unparse(conv[0])[:60]}`" if conv else f"the picture is stretched with `resample={unparse(rs)}`") + ": rows are no longer doubled but blended, the PNG contains colours that no palette entry denotes (and is no longer a palette image)",
+                file=rel,
+                line=r_.lineno,
+                props=["C16", "C18"],
+            )
+        # the record walk: a length byte taken from the data advances the position by exactly its value (+1 for itself);
+        # clamped / masked, the next record is read from the middle of this one
+        for lp_ in [n for n in ast.walk(st) if isinstance(n, (ast.While, ast.For))]:
+            for a_ in [x for x in ast.walk(lp_) if isinstance(x, (ast.Assign, ast.AugAssign))]:
+                tgt_ = (a_.targets[0] if isinstance(a_, ast.Assign) and len(a_.targets) == 1 else getattr(a_, "target", None))
+                if not isinstance(tgt_, ast.Name):
+                    continue
+                pos_ = tgt_.id
+                # position variable: also used as an index into a byte sequence inside the same loop
+                idx_ = [s_ for s_ in ast.walk(lp_) if isinstance(s_, ast.Subscript) and isinstance(s_.slice, ast.Name) and s_.slice.id == pos_ and isinstance(s_.value, ast.Name)]
+                if not idx_:
+                    continue
+                rhs_ = a_.value if isinstance(a_, ast.AugAssign) else a_.value
+                if isinstance(a_, ast.Assign) and pos_ not in names_loaded(rhs_):
+                    continue
+                if isinstance(a_, ast.AugAssign) and not isinstance(a_.op, ast.Add):
+                    continue
+                steps_ = [x for x in ast.walk(rhs_) if isinstance(x, ast.Name) and x.id != pos_]
+                for nm_ in steps_:
+                    binds_ = [b_.value for b_ in ast.walk(lp_) if isinstance(b_, ast.Assign) and len(b_.targets) == 1 and isinstance(b_.targets[0], ast.Name) and b_.targets[0].id == nm_.id]
+                    if len(binds_) != 1:
+                        continue
+                    reads_ = [s_ for s_ in ast.walk(binds_[0]) if isinstance(s_, ast.Subscript) and isinstance(s_.slice, ast.Name) and s_.slice.id == pos_]
+                    if not reads_:
+                        continue
+                    exact = isinstance(binds_[0], ast.Subscript) or (isinstance(binds_[0], ast.Call) and call_name(binds_[0]) in ("ord", "int") and len(binds_[0].args) == 1 and isinstance(binds_[0].args[0], ast.Subscript))
+                    ctx.ob(
+                        f"veftopng.records:advance:{nm_.id}",
+                        exact,
+                        "" if exact else f"the record length that advances `{pos_}` is `{unparse(binds_[0])}`, not the length byte as it stands in the file: a record longer than the assumed bound (a valid, if wasteful, encoding: literals split into several groups) is cut short and every later record is read from the wrong offset",
+                        file=rel,
+                        line=binds_[0].lineno,
+                        props=["C17", "C19"],
+                    )
         # squashed files: one record per `record length` bytes of the picture, whatever the type
         sq = [n for n in ast.walk(st) if isinstance(n, (ast.While, ast.For)) and any(isinstance(c, ast.Call) and call_name(c) == "unsquash" for b in n.body for c in ast.walk(b))]
         if wv and hv and cv and lv and len(sq) == 1:
